@@ -267,7 +267,13 @@ class Run:
         if r['compile_error']:
             # code emitted by pyxis (or the generated harness) does not compile: decide which
             txt = r['compile_error']
-            if 'cannot transmute between types of different sizes' in txt or 'E0512' in txt:
+            import re as _re
+            m609 = _re.search(r'E0609\]: no field `(\w+)` on type `[\w:]*?(\w+)`', txt)
+            if m609 and not m609.group(1).startswith('_'):
+                # the harness names every field the semantic model lists: a field missing from the emitted struct
+                self.violations.append({'slice': 'engine-b', 'template': cfg['template'], 'query': 'emitted-struct-has-field:%s.%s' % (m609.group(2), m609.group(1)),
+                                        'args': [to_i64(x) for x in ws[0].args], 'expected': 'field present in the emitted struct', 'native': txt[:1200]})
+            elif 'cannot transmute between types of different sizes' in txt or 'E0512' in txt:
                 self.violations.append({'slice': 'engine-b', 'template': cfg['template'], 'query': 'emitted-size-check-compiles', 'args': [to_i64(x) for x in ws[0].args],
                                         'expected': 'rustc accepts transmute::<[u8; size], T>', 'native': txt[:1500]})
             else:
@@ -294,100 +300,105 @@ class Run:
         if 'map_order' in sl.opts: I.map_order = sl.opts['map_order']
         _W.update(prop=self.prop, a=a, slice=sl, findings=findings)
         t = time.time()
-        results, st = engine.explore_parallel(I, sl.template, [args_value(a)], _leaf_fn,
-                                              time_limit=sl.opts.get('time_limit'))
-        info = {'slice': sl.name, 'template': sl.template, 'leaves': len(results), 'wall_s': round(time.time() - t, 1),
-                'solver_s': round(st['solver'], 1), 'truncated': st['truncated'], 'outcomes': {}}
+        info = {'slice': sl.name, 'template': sl.template, 'leaves': 0, 'wall_s': 0, 'solver_s': 0, 'truncated': False, 'outcomes': {}}
+        self.query_s = getattr(self, 'query_s', 0.0)
+        def on_results(batch):
+            for r in batch:
+                info['leaves'] += 1
+                self._process_leaf(S, sl, info, r)
+        _, st = engine.explore_parallel(I, sl.template, [args_value(a)], _leaf_fn,
+                                        time_limit=sl.opts.get('time_limit', 900 if self.tier == 'quick' else 5400), on_results=on_results)
+        info.update(wall_s=round(time.time() - t, 1), solver_s=round(st['solver'], 1), truncated=st['truncated'])
         self.solver_s += st['solver']; self.interp_s += st['worker_wall'] - st['solver']
         self.called.update(st['called']); self.modelled.update(st['modelled']); self.summarized.update(st['summarized'])
         if st['truncated']: self.unsupported.append({'slice': sl.name, 'unsupported': 'exploration truncated (time/leaf limit)'})
-        self.query_s = getattr(self, 'query_s', 0.0) + sum(q['s'] for r in results if 'queries' in r for q in r['queries'])
-        self.slowq = sorted(((q['s'], q['name'], r['outcome'], r['witness'], q.get('slow_pc')) for r in results if 'queries' in r for q in r['queries']), key=lambda x: -x[0])[:10]
-        for r in results:
-            if 'unsupported' in r:
-                r = dict(r); r['slice'] = sl.name
-                self.unsupported.append(r); continue
-            self.leaves += 1; self.forks += r['forks']
-            info['outcomes'][r['outcome']] = info['outcomes'].get(r['outcome'], 0) + 1
-            if r['outcome'] in ('ok', 'ok/ok') and r.get('witness') and r['witness'][0] == 8 and all(q['status'] == 'unsat' and not q['known'] for q in r['queries']):
-                self.ok_witnesses.setdefault(sl.template, []).append(r['witness'])
-            # differential validation of the leaf's witness on the native build
-            if r['witness'] is None:
-                self.unvalidated = getattr(self, 'unvalidated', 0) + 1
-                continue_validation = False
-            else:
-                continue_validation = True
-            if continue_validation and r['kind'] == 'unbounded':
-                # every such replay runs into the time/memory limit: confirm a few per slice, not hundreds
-                self._unb = getattr(self, '_unb', 0) + 1
-                if self._unb > 2:
-                    continue_validation = False; self.unvalidated = getattr(self, 'unvalidated', 0) + 1
-            if not continue_validation:
-                nat = None
-            elif r['kind'] == 'unbounded':
-                nat = S.replay_once(sl.template, r['witness'], timeout=20)
-            else:
-                nat = S.replay(sl.template, r['witness'])
-            if not continue_validation:
-                pass
-            elif getattr(self.prop, 'same_outcome', same_outcome)(nat, r['expected']):
-                self.validated += 1
-            else:
-                self.mismatches.append({'slice': sl.name, 'args': r['witness'], 'interpreted': r['expected'], 'native': nat})
-            if continue_validation and len(self.samples) < 12 and (self.leaves % 37 == 1 or len(self.samples) < 3):
-                self.samples.append({'slice': sl.name, 'args': [to_i64(x) for x in r['witness']], 'outcome': r['outcome'],
-                                     'native': _short(nat), 'queries': [(q['name'], q['status']) for q in r['queries']]})
-            for q in r['queries']:
-                self.queries += 1
-                for k in q['known']:
-                    nat = self.native(S, sl, k['args'], k['expected'])
-                    confirm = getattr(self.prop, 'native_confirm', None)
-                    if confirm is not None:
-                        okk, nat = confirm(S, sl, k['args'], k['expected'], q['name'])
-                    else:
-                        okk = same_outcome(nat, k['expected'])
-                    if okk:
-                        self.validated += 1
-                        self.known.setdefault(k['role'], {'count': 0, 'example': None, 'query': q['name']})
-                        self.known[k['role']]['count'] += 1
-                        self.known[k['role']]['example'] = self.known[k['role']]['example'] or {'args': [to_i64(x) for x in k['args']], 'native': _short(nat)}
-                    else:
-                        self.mismatches.append({'slice': sl.name, 'args': k['args'], 'interpreted': k['expected'], 'native': nat})
-                if q['status'] == 'unsat': self.unsat += 1
-                elif q['status'] == 'unknown':
-                    self.unknown += 1
-                    self.unsupported.append({'slice': sl.name, 'unsupported': 'solver unknown on %s: %s' % (q['name'], q.get('reason'))})
-                else:
-                    self.sat += 1
-                    c = q['cex']
-                    if isinstance(c['expected'], dict) and 'unbounded' in c['expected']:
-                        key = (sl.name, q['name'])
-                        self._unb_confirmed = getattr(self, '_unb_confirmed', set())
-                        if key in self._unb_confirmed:
-                            self.duplicates = getattr(self, 'duplicates', 0) + 1
-                            continue       # same loop site already confirmed natively for this slice
-                    nat = self.native(S, sl, c['args'], c['expected'])
-                    confirm = getattr(self.prop, 'native_confirm', None)
-                    if confirm is not None:
-                        ok, nat = confirm(S, sl, c['args'], c['expected'], q['name'])
-                    else:
-                        ok = same_outcome(nat, c['expected'])
-                    if ok:
-                        self.validated += 1
-                        if isinstance(c['expected'], dict) and 'unbounded' in c['expected']:
-                            self._unb_confirmed.add((sl.name, q['name']))
-                        self.violations.append({'slice': sl.name, 'template': sl.template, 'query': q['name'], 'args': [to_i64(x) for x in c['args']],
-                                                'expected': c['expected'], 'native': nat})
-                    else:
-                        self.mismatches.append({'slice': sl.name, 'args': c['args'], 'interpreted': c['expected'], 'native': nat,
-                                                'query': q['name']})
         self.slices.append(info)
-        print('  slice %-28s leaves=%-6d wall=%.1fs solver=%.1fs outcomes=%s' % (sl.name, len(results), info['wall_s'], st['solver'],
+        print('  slice %-28s leaves=%-6d wall=%.1fs solver=%.1fs outcomes=%s' % (sl.name, info['leaves'], info['wall_s'], st['solver'],
                                                                                 info['outcomes']), flush=True)
         # vacuity guard: a slice must reach what it says it reaches
         for want in sl.opts.get('must_reach', ()):
             if info['outcomes'].get(want, 0) == 0:
                 self.unsupported.append({'slice': sl.name, 'unsupported': 'vacuity: no `%s` leaf reached' % want})
+
+    def _process_leaf(self, S, sl, info, r):
+        if 'unsupported' in r:
+            r = dict(r); r['slice'] = sl.name
+            self.unsupported.append(r); return
+        self.leaves += 1; self.forks += r['forks']
+        info['outcomes'][r['outcome']] = info['outcomes'].get(r['outcome'], 0) + 1
+        if r['outcome'] in ('ok', 'ok/ok') and r.get('witness') and r['witness'][0] == 8 and all(q['status'] == 'unsat' and not q['known'] for q in r['queries']):
+            self.ok_witnesses.setdefault(sl.template, []).append(r['witness'])
+        # differential validation of the leaf's witness on the native build
+        if r['witness'] is None:
+            self.unvalidated = getattr(self, 'unvalidated', 0) + 1
+            continue_validation = False
+        else:
+            continue_validation = True
+        if continue_validation and r['kind'] == 'unbounded':
+            # every such replay runs into the time/memory limit: confirm a few per slice, not hundreds
+            self._unb = getattr(self, '_unb', 0) + 1
+            if self._unb > 2:
+                continue_validation = False; self.unvalidated = getattr(self, 'unvalidated', 0) + 1
+        if not continue_validation:
+            nat = None
+        elif r['kind'] == 'unbounded':
+            nat = S.replay_once(sl.template, r['witness'], timeout=20)
+        else:
+            nat = S.replay(sl.template, r['witness'])
+        if not continue_validation:
+            pass
+        elif getattr(self.prop, 'same_outcome', same_outcome)(nat, r['expected']):
+            self.validated += 1
+        else:
+            self.mismatches.append({'slice': sl.name, 'args': r['witness'], 'interpreted': r['expected'], 'native': nat})
+        if continue_validation and len(self.samples) < 12 and (self.leaves % 37 == 1 or len(self.samples) < 3):
+            self.samples.append({'slice': sl.name, 'args': [to_i64(x) for x in r['witness']], 'outcome': r['outcome'],
+                                 'native': _short(nat), 'queries': [(q['name'], q['status']) for q in r['queries']]})
+        for q in r['queries']:
+            self.queries += 1
+            for k in q['known']:
+                nat = self.native(S, sl, k['args'], k['expected'])
+                confirm = getattr(self.prop, 'native_confirm', None)
+                if confirm is not None:
+                    okk, nat = confirm(S, sl, k['args'], k['expected'], q['name'])
+                else:
+                    okk = same_outcome(nat, k['expected'])
+                if okk:
+                    self.validated += 1
+                    self.known.setdefault(k['role'], {'count': 0, 'example': None, 'query': q['name']})
+                    self.known[k['role']]['count'] += 1
+                    self.known[k['role']]['example'] = self.known[k['role']]['example'] or {'args': [to_i64(x) for x in k['args']], 'native': _short(nat)}
+                else:
+                    self.mismatches.append({'slice': sl.name, 'args': k['args'], 'interpreted': k['expected'], 'native': nat})
+            if q['status'] == 'unsat': self.unsat += 1
+            elif q['status'] == 'unknown':
+                self.unknown += 1
+                self.unsupported.append({'slice': sl.name, 'unsupported': 'solver unknown on %s: %s' % (q['name'], q.get('reason'))})
+            else:
+                self.sat += 1
+                c = q['cex']
+                if isinstance(c['expected'], dict) and 'unbounded' in c['expected']:
+                    key = (sl.name, q['name'])
+                    self._unb_confirmed = getattr(self, '_unb_confirmed', set())
+                    if key in self._unb_confirmed:
+                        self.duplicates = getattr(self, 'duplicates', 0) + 1
+                        continue       # same loop site already confirmed natively for this slice
+                nat = self.native(S, sl, c['args'], c['expected'])
+                confirm = getattr(self.prop, 'native_confirm', None)
+                if confirm is not None:
+                    ok, nat = confirm(S, sl, c['args'], c['expected'], q['name'])
+                else:
+                    ok = same_outcome(nat, c['expected'])
+                if ok:
+                    self.validated += 1
+                    if isinstance(c['expected'], dict) and 'unbounded' in c['expected']:
+                        self._unb_confirmed.add((sl.name, q['name']))
+                    self.violations.append({'slice': sl.name, 'template': sl.template, 'query': q['name'], 'args': [to_i64(x) for x in c['args']],
+                                            'expected': c['expected'], 'native': nat})
+                else:
+                    self.mismatches.append({'slice': sl.name, 'args': c['args'], 'interpreted': c['expected'], 'native': nat,
+                                            'query': q['name']})
+
 
     def native(self, S, sl, args, expected):
         if isinstance(expected, dict) and 'unbounded' in expected:
